@@ -159,10 +159,17 @@ mod __verif_c05s {
     }
 
     fn check(w: &World, pred: &Expr, truth: Tv) {
+        check_with(w, pred, truth, true)
+    }
+
+    /// `expect_def` = whether a "filter elided" outcome is reachable for this predicate shape on the current code
+    /// (it never is for NOT ...: row_group_definitely_matches has no NOT arm), so that the vacuity witness asks for
+    /// the right thing
+    fn check_with(w: &World, pred: &Expr, truth: Tv, expect_def: bool) {
         let might = row_group_might_match(pred, &w.rg, &w.schema);
         let def = row_group_definitely_matches(pred, &w.rg, &w.schema);
         kani::cover!(!might);
-        kani::cover!(def);
+        kani::cover!(def || !expect_def);
         if truth == Tv::T {
             assert!(might, "C05.row_kept_by_predicate_is_never_skipped");
         }
@@ -208,6 +215,11 @@ mod __verif_c05s {
             Box::from_raw(p)
         }
     }
+    /// a Box that borrows the address of a caller-owned local (never dropped: such predicates are wrapped in ManuallyDrop, so not even a panic unwinding during native replay frees the borrowed address), so
+    /// that CBMC reads the child's variant tag as the constant it is instead of an unknown heap byte
+    unsafe fn borrow_box(e: &mut Expr) -> Box<Expr> {
+        Box::from_raw(e as *mut Expr)
+    }
     fn bin(a: &Leaf, op: BinaryOp, b: &Leaf) -> Expr {
         Expr::BinaryExpr { left: boxed(leaf_expr(a)), op, right: boxed(leaf_expr(b)) }
     }
@@ -215,7 +227,7 @@ mod __verif_c05s {
         Expr::UnaryExpr { op: UnaryOp::Not, expr: boxed(e) }
     }
 
-    // @harness tiers=experimental timeout=2400
+    // @harness tiers=quick,thorough timeout=900
     // @encodes storage::row_group_pruning::row_group_might_match, storage::row_group_pruning::row_group_definitely_matches (NOT arm)
     // @bounds as leaf_comparison_full_path; predicate = NOT (c op lit), literal BIGINT or DOUBLE
     // @oracle Kleene NOT of the leaf's three-valued truth (NOT NULL is NULL: a NULL row is not kept)
@@ -224,17 +236,15 @@ mod __verif_c05s {
     fn not_of_a_comparison() {
         let w = any_world();
         let a = any_leaf_i64_or_f64(true);
-        // the inner comparison lives in a local; the Box only borrows its address and is never dropped (forget below),
-        // so CBMC sees the child's variant tag as the constant it is
         let mut inner = leaf_expr(&a);
-        let p = Expr::UnaryExpr { op: UnaryOp::Not, expr: unsafe { Box::from_raw(&mut inner as *mut Expr) } };
-        check(&w, &p, not3(leaf_tv(&a, w.row)));
+        let p = std::mem::ManuallyDrop::new(Expr::UnaryExpr { op: UnaryOp::Not, expr: unsafe { borrow_box(&mut inner) } });
+        check_with(&w, &p, not3(leaf_tv(&a, w.row)), false);
         std::mem::forget(p);
         std::mem::forget(inner);
         std::mem::forget(w);
     }
 
-    // @harness tiers=experimental timeout=2400
+    // @harness tiers=thorough timeout=2400
     // @encodes storage::row_group_pruning::row_group_might_match, storage::row_group_pruning::row_group_definitely_matches (AND arm)
     // @bounds as leaf_comparison_full_path; predicate = (c op1 lit1) AND (c op2 lit2), literals BIGINT or DOUBLE
     // @oracle Kleene AND of the leaves' three-valued truths
@@ -243,13 +253,15 @@ mod __verif_c05s {
     fn and_of_two_comparisons() {
         let w = any_world();
         let (a, b) = (any_leaf_i64_or_f64(false), any_leaf_i64_or_f64(true));
-        let p = bin(&a, BinaryOp::And, &b);
+        let (mut l, mut r) = (leaf_expr(&a), leaf_expr(&b));
+        let p = std::mem::ManuallyDrop::new(Expr::BinaryExpr { left: unsafe { borrow_box(&mut l) }, op: BinaryOp::And, right: unsafe { borrow_box(&mut r) } });
         check(&w, &p, and3(leaf_tv(&a, w.row), leaf_tv(&b, w.row)));
         std::mem::forget(p);
+        std::mem::forget((l, r));
         std::mem::forget(w);
     }
 
-    // @harness tiers=experimental timeout=2400
+    // @harness tiers=thorough timeout=2400
     // @encodes storage::row_group_pruning::row_group_might_match, storage::row_group_pruning::row_group_definitely_matches (OR arm)
     // @bounds as and_of_two_comparisons with OR
     // @oracle Kleene OR
@@ -258,13 +270,15 @@ mod __verif_c05s {
     fn or_of_two_comparisons() {
         let w = any_world();
         let (a, b) = (any_leaf_i64_or_f64(false), any_leaf_i64_or_f64(true));
-        let p = bin(&a, BinaryOp::Or, &b);
+        let (mut l, mut r) = (leaf_expr(&a), leaf_expr(&b));
+        let p = std::mem::ManuallyDrop::new(Expr::BinaryExpr { left: unsafe { borrow_box(&mut l) }, op: BinaryOp::Or, right: unsafe { borrow_box(&mut r) } });
         check(&w, &p, or3(leaf_tv(&a, w.row), leaf_tv(&b, w.row)));
         std::mem::forget(p);
+        std::mem::forget((l, r));
         std::mem::forget(w);
     }
 
-    // @harness tiers=experimental timeout=2400
+    // @harness tiers=thorough timeout=2400
     // @encodes storage::row_group_pruning::row_group_might_match, storage::row_group_pruning::row_group_definitely_matches (NOT over AND / OR)
     // @bounds predicate = NOT (leaf AND leaf) or NOT (leaf OR leaf) (connective symbolic), BIGINT literals
     // @oracle Kleene NOT / AND / OR
@@ -274,12 +288,17 @@ mod __verif_c05s {
         let w = any_world();
         let (a, b) = (any_leaf_i64(false), any_leaf_i64(false));
         let (ta, tb) = (leaf_tv(&a, w.row), leaf_tv(&b, w.row));
-        let p = not(bin(&a, BinaryOp::And, &b));
-        check(&w, &p, not3(and3(ta, tb)));
+        let (mut l, mut r) = (leaf_expr(&a), leaf_expr(&b));
+        let mut conj = std::mem::ManuallyDrop::new(Expr::BinaryExpr { left: unsafe { borrow_box(&mut l) }, op: BinaryOp::And, right: unsafe { borrow_box(&mut r) } });
+        let p = std::mem::ManuallyDrop::new(Expr::UnaryExpr { op: UnaryOp::Not, expr: unsafe { borrow_box(&mut *conj) } });
+        check_with(&w, &p, not3(and3(ta, tb)), false);
         std::mem::forget(p);
-        let q = not(bin(&a, BinaryOp::Or, &b));
-        check(&w, &q, not3(or3(ta, tb)));
+        let (mut l2, mut r2) = (leaf_expr(&a), leaf_expr(&b));
+        let mut disj = std::mem::ManuallyDrop::new(Expr::BinaryExpr { left: unsafe { borrow_box(&mut l2) }, op: BinaryOp::Or, right: unsafe { borrow_box(&mut r2) } });
+        let q = std::mem::ManuallyDrop::new(Expr::UnaryExpr { op: UnaryOp::Not, expr: unsafe { borrow_box(&mut *disj) } });
+        check_with(&w, &q, not3(or3(ta, tb)), false);
         std::mem::forget(q);
+        std::mem::forget((l, r, conj, l2, r2, disj));
         std::mem::forget(w);
     }
 
@@ -308,7 +327,7 @@ mod __verif_c05s {
         std::mem::forget(w);
     }
 
-    // @harness tiers=experimental timeout=2400
+    // @harness tiers=quick,thorough timeout=900
     // @encodes storage::row_group_pruning::row_group_might_match, storage::row_group_pruning::row_group_definitely_matches (IN arm)
     // @bounds predicate = c [NOT] IN (x, y), BIGINT literals
     // @oracle IN = (c = x OR c = y) in three-valued logic; NOT IN negates
@@ -321,17 +340,24 @@ mod __verif_c05s {
             None => Tv::N,
             Some(v) => or3(tv(v == x), tv(v == y)),
         };
-        let mk = |negated: bool| Expr::InList {
-            expr: Box::new(Expr::Column(Column::new("c"))),
-            list: vec![Expr::Literal(ScalarValue::Int64(x)), Expr::Literal(ScalarValue::Int64(y))],
-            negated,
-        };
-        let p = mk(false);
+        // list elements and the tested expression live in locals (see borrow_box)
+        let mut col = Expr::Column(Column::new("c"));
+        let mut items = [Expr::Literal(ScalarValue::Int64(x)), Expr::Literal(ScalarValue::Int64(y))];
+        let p = std::mem::ManuallyDrop::new(Expr::InList {
+            expr: unsafe { borrow_box(&mut col) },
+            list: unsafe { Vec::from_raw_parts(items.as_mut_ptr(), 2, 2) },
+            negated: false,
+        });
         check(&w, &p, t);
-        std::mem::forget(p);
-        let q = mk(true);
-        check(&w, &q, not3(t));
-        std::mem::forget(q);
+        let mut col2 = Expr::Column(Column::new("c"));
+        let mut items2 = [Expr::Literal(ScalarValue::Int64(x)), Expr::Literal(ScalarValue::Int64(y))];
+        let q = std::mem::ManuallyDrop::new(Expr::InList {
+            expr: unsafe { borrow_box(&mut col2) },
+            list: unsafe { Vec::from_raw_parts(items2.as_mut_ptr(), 2, 2) },
+            negated: true,
+        });
+        check_with(&w, &q, not3(t), false);
+        std::mem::forget((col, items, col2, items2));
         std::mem::forget(w);
     }
 
